@@ -523,12 +523,312 @@ Section SafeAllocClear.
     intros H HA. destruct (clear_no_drop_safe t H) as (_ & Hm & _).
     apply (Allocated_same_mask t _ Hm HA).
   Qed.
+
+  (* -------------------------------------------------------------------------------------- *)
+  (* A5: drop_elements                                                                       *)
+  (* -------------------------------------------------------------------------------------- *)
+  Lemma safe_allocated_parts t : SafeWF B T t -> mask t <> 0 ->
+    Shape B T t /\ Mirror B T t /\ Count T t.
+  Proof.
+    unfold SafeWF. intros H Hm. destruct (Nat.eqb_spec (mask t) 0); [contradiction | exact H].
+  Qed.
+
+  Lemma safe_items_nz_mask t : SafeWF B T t -> items t <> 0%Z -> mask t <> 0.
+  Proof.
+    unfold SafeWF. intros H Hi Hm. rewrite Hm in H. cbn [Nat.eqb] in H. subst t. apply Hi. reflexivity.
+  Qed.
+
+  (* the occupants are the contents of the FULL buckets, in bucket order *)
+  Lemma occupants_full_list t : SafeWF B T t ->
+    occupants T t = flat_map (fun i => opt_list (nth i (slots t) None)) (full_list t).
+  Proof.
+    intros H. unfold SafeWF in H. destruct (mask t =? 0) eqn:Hm.
+    - subst t. rewrite (proj2 (items_singleton B T HW)). reflexivity.
+    - destruct H as (HS & _ & (_ & _ & _ & Hsl)). destruct HS as (_ & _ & Hls & _).
+      unfold occupants.
+      change (fun o : option T => match o with Some e => [e] | None => [] end) with (@opt_list T).
+      pose proof (flat_map_nth_seq (@opt_list T) (slots t) None (length (slots t)) 0) as E.
+      cbn [skipn] in E. rewrite firstn_all in E. rewrite E by lia. rewrite Hls.
+      unfold full_list. rewrite flat_map_filter_skip; [reflexivity|].
+      intros x Hx Hp. apply in_seq in Hx. specialize (Hsl x ltac:(lia)). unfold slot in Hsl.
+      destruct (nth x (slots t) None) as [e|]; [|reflexivity].
+      exfalso. assert (Hf : is_full (byte T t x) = true) by (apply Hsl; discriminate). congruence.
+  Qed.
+
+  Lemma occupants_length t : SafeWF B T t -> items t = Z.of_nat (length (occupants T t)).
+  Proof.
+    intros H. rewrite (items_full_list B T HW t H). f_equal.
+    rewrite (occupants_full_list t H).
+    assert (Hall : forall i, In i (full_list t) -> nth i (slots t) None <> None).
+    { intros i Hi. unfold SafeWF in H. destruct (mask t =? 0) eqn:Hm.
+      - subst t. rewrite (proj2 (items_singleton B T HW)) in Hi. destruct Hi.
+      - destruct H as (_ & _ & (_ & _ & _ & Hsl)). unfold full_list in Hi. apply filter_In in Hi.
+        destruct Hi as [Hi Hf]. apply in_seq in Hi. apply (Hsl i ltac:(lia)). exact Hf. }
+    induction (full_list t) as [|i r IH]; [reflexivity|].
+    cbn [flat_map length]. rewrite app_length, <- IH by (intros j Hj; apply Hall; right; exact Hj).
+    destruct (nth i (slots t) None) eqn:E; [reflexivity|].
+    exfalso. apply (Hall i (or_introl eq_refl)). exact E.
+  Qed.
+
+  Lemma occupants_items0 t : SafeWF B T t -> items t = 0%Z -> occupants T t = [].
+  Proof.
+    intros H Hi. rewrite (occupants_length t H) in Hi.
+    destruct (occupants T t); [reflexivity | simpl in Hi; lia].
+  Qed.
+
+  Lemma take_all_spec : forall (idx : list nat) (t : table T), mask t <> 0 -> NoDup idx ->
+    (forall i, In i idx -> nth i (slots t) None <> None) ->
+    exists es, take_all T t idx = Ok (es, with_slots T t (clear_at (slots t) idx)) /\
+               map Some es = map (fun i => nth i (slots t) None) idx.
+  Proof.
+    induction idx as [|i r IH]; intros t Hm Hnd Hfull.
+    - exists []. split; [|reflexivity]. cbn [take_all clear_at]. destruct t; reflexivity.
+    - cbn [take_all].
+      assert (Hi : nth i (slots t) None <> None) by (apply Hfull; left; reflexivity).
+      assert (Hlen : i < length (slots t)).
+      { destruct (Nat.lt_ge_cases i (length (slots t))) as [|Hge]; [assumption|].
+        exfalso. apply Hi. apply nth_overflow. exact Hge. }
+      destruct (nth i (slots t) None) as [e|] eqn:Ee; [|congruence].
+      assert (Hst : slot_take T t i = Ok (e, with_slots T t (upd (slots t) i None))).
+      { unfold slot_take, slot_ref, is_singleton.
+        destruct (Nat.eqb_spec (mask t) 0); [contradiction|].
+        rewrite (nth_error_nth' (slots t) None Hlen), Ee. reflexivity. }
+      rewrite Hst. cbn [bind].
+      inversion Hnd as [|? ? Hnotin Hnd']; subst.
+      destruct (IH (with_slots T t (upd (slots t) i None))) as (es & Hta' & Hes).
+      + exact Hm.
+      + exact Hnd'.
+      + intros j Hj. cbn [slots with_slots]. rewrite nth_upd by exact Hlen.
+        destruct (Nat.eqb_spec j i) as [->|]; [contradiction|]. apply Hfull. right. exact Hj.
+      + rewrite Hta'. cbn [bind]. exists (e :: es). split.
+        * reflexivity.
+        * cbn [map]. rewrite Ee. f_equal. rewrite Hes. apply map_ext_in. intros j Hj.
+          cbn [slots with_slots]. rewrite nth_upd by exact Hlen.
+          destruct (Nat.eqb_spec j i) as [->|]; [contradiction | reflexivity].
+  Qed.
+
+  (* drop_list runs the destructor on a prefix, each element once; it stops at the first
+     destructor that panics (that element's destructor did run) *)
+  Lemma drop_list_spec : forall es evs ok, drop_list T drop_ok es = (evs, ok) ->
+    exists n, n <= length es /\ evs = map EvDrop (firstn n es) /\
+      (ok = true -> n = length es) /\
+      (ok = false -> exists e, nth_error es (n - 1) = Some e /\ drop_ok e = false /\ 0 < n).
+  Proof.
+    induction es as [|e r IH]; intros evs ok H; cbn [drop_list] in H.
+    - injection H as <- <-. exists 0. split; [lia|]. split; [reflexivity|]. split; [reflexivity | discriminate].
+    - destruct (drop_ok e) eqn:Ed.
+      + destruct (drop_list T drop_ok r) as [evs' ok'] eqn:Er. injection H as <- <-.
+        destruct (IH evs' ok' eq_refl) as (n & Hn & He & Ht & Hf).
+        exists (S n). cbn [length firstn map]. split; [lia|]. split; [rewrite He; reflexivity|].
+        split; [intros Hok; rewrite (Ht Hok); reflexivity|].
+        intros Hok. destruct (Hf Hok) as (x & Hx & Hdx & Hpos). exists x.
+        split; [|split; [exact Hdx | lia]].
+        destruct n as [|n']; [lia|]. cbn [Nat.sub] in *. rewrite Nat.sub_0_r in *. exact Hx.
+      + injection H as <- <-. exists 1. cbn [length firstn map]. split; [lia|]. split; [reflexivity|].
+        split; [discriminate|]. intros _. exists e. split; [reflexivity|]. split; [exact Ed | lia].
+  Qed.
+
+  (* evs is the sequence of drops of a prefix of occ: every dropped element is an occupant,
+     in bucket order, and none is dropped twice *)
+  Definition drops_prefix (evs : list (event T)) (occ : list T) : Prop :=
+    exists l, evs = map EvDrop l /\ l = firstn (length l) occ.
+
+  Lemma drops_prefix_nil occ : drops_prefix [] occ.
+  Proof. exists []. split; reflexivity. Qed.
+
+  Lemma drops_prefix_firstn n occ : n <= length occ -> drops_prefix (map EvDrop (firstn n occ)) occ.
+  Proof.
+    intros H. exists (firstn n occ). split; [reflexivity|].
+    rewrite firstn_length, Nat.min_l by exact H. reflexivity.
+  Qed.
+
+  Theorem drop_elements_spec t : SafeWF B T t ->
+    exists t1 evs ok, drop_elements B T needs_drop drop_ok t = Ok (t1, evs, ok) /\
+      mask t1 = mask t /\ ctrl t1 = ctrl t /\ items t1 = items t /\ growth_left t1 = growth_left t /\
+      length (slots t1) = length (slots t) /\
+      drops_prefix evs (occupants T t) /\
+      (needs_drop = true -> ok = true -> evs = map EvDrop (occupants T t)) /\
+      (ok = false -> needs_drop = true /\ items t <> 0%Z /\
+                     exists l e, evs = map EvDrop (l ++ [e]) /\ drop_ok e = false) /\
+      (needs_drop = true -> items t <> 0%Z -> forall i, slot T t1 i = None) /\
+      (needs_drop = false \/ items t = 0%Z -> t1 = t /\ evs = [] /\ ok = true).
+  Proof.
+    intros H. unfold drop_elements.
+    assert (Htriv : needs_drop = false \/ items t = 0%Z ->
+      exists t1 evs ok, Ok (t, [], true) = Ok (A := table T * list (event T) * bool) (t1, evs, ok) /\
+      mask t1 = mask t /\ ctrl t1 = ctrl t /\ items t1 = items t /\ growth_left t1 = growth_left t /\
+      length (slots t1) = length (slots t) /\
+      drops_prefix evs (occupants T t) /\
+      (needs_drop = true -> ok = true -> evs = map EvDrop (occupants T t)) /\
+      (ok = false -> needs_drop = true /\ items t <> 0%Z /\
+                     exists l e, evs = map EvDrop (l ++ [e]) /\ drop_ok e = false) /\
+      (needs_drop = true -> items t <> 0%Z -> forall i, slot T t1 i = None) /\
+      (needs_drop = false \/ items t = 0%Z -> t1 = t /\ evs = [] /\ ok = true)).
+    { intros Hc. exists t, [], true. split; [reflexivity|]. repeat (split; [reflexivity|]).
+      split; [apply drops_prefix_nil|]. split; [|split; [discriminate|split]].
+      - intros Hnd _. destruct Hc as [Hc|Hc]; [congruence|]. rewrite (occupants_items0 t H Hc). reflexivity.
+      - intros Hnd Hi. destruct Hc as [Hc|Hc]; congruence.
+      - intros _. repeat split. }
+    destruct needs_drop eqn:End; cbn [andb]; [|apply Htriv; left; reflexivity].
+    destruct (Z.eqb_spec (items t) 0) as [Hi0|Hi]; cbn [negb]; [apply Htriv; right; exact Hi0|].
+    clear Htriv.
+    pose proof (safe_items_nz_mask t H Hi) as Hm.
+    destruct (safe_allocated_parts t H Hm) as (HS & _ & (_ & _ & _ & Hsl)).
+    rewrite (full_buckets_indices_exact B T HW HB t H). cbn [bind].
+    assert (Hfull : forall i, In i (full_list t) -> nth i (slots t) None <> None).
+    { intros i Hin. unfold full_list in Hin. apply filter_In in Hin. destruct Hin as [Hin Hf].
+      apply in_seq in Hin. apply (Hsl i ltac:(lia)). exact Hf. }
+    assert (Hnd : NoDup (full_list t)) by (unfold full_list; apply NoDup_filter, seq_NoDup).
+    destruct (take_all_spec (full_list t) t Hm Hnd Hfull) as (es & Hta' & Hes).
+    rewrite Hta'. cbn [bind].
+    assert (Eocc : es = occupants T t).
+    { rewrite (occupants_full_list t H). symmetry. apply flat_map_opt_of_map_Some. exact Hes. }
+    subst es.
+    destruct (drop_list T drop_ok (occupants T t)) as [evs ok] eqn:Edl.
+    destruct (drop_list_spec _ _ _ Edl) as (n & Hn & -> & Hok & Hfail).
+    assert (Hbound : forall i, In i (full_list t) -> i < length (slots t)).
+    { intros i Hin. destruct (Nat.lt_ge_cases i (length (slots t))) as [|Hge]; [assumption|].
+      exfalso. apply (Hfull i Hin). apply nth_overflow. exact Hge. }
+    eexists _, _, ok. split; [reflexivity|].
+    cbn [mask ctrl items growth_left slots with_slots].
+    repeat (split; [reflexivity|]).
+    split; [apply clear_at_length; exact Hbound|].
+    split; [apply drops_prefix_firstn; exact Hn|].
+    split; [intros _ Ho; rewrite (Hok Ho), firstn_all; reflexivity|].
+    split; [|split].
+    - intros Ho. split; [reflexivity|]. split; [exact Hi|].
+      destruct (Hfail Ho) as (e & He & Hde & Hpos).
+      exists (firstn (n - 1) (occupants T t)), e. split; [|exact Hde].
+      f_equal.
+      assert (Hsplit : forall (l : list T) k x, nth_error l k = Some x -> firstn (S k) l = firstn k l ++ [x]).
+      { induction l as [|a l IHl]; intros k x Hk; [destruct k; discriminate|].
+        destruct k as [|k]; cbn in Hk.
+        - injection Hk as ->. reflexivity.
+        - cbn [firstn app]. rewrite <- (IHl k x Hk). reflexivity. }
+      replace n with (S (n - 1)) at 1 by lia. apply Hsplit. exact He.
+    - intros _ _ i. unfold slot. cbn [slots with_slots].
+      rewrite clear_at_nth by exact Hbound.
+      destruct (in_dec Nat.eq_dec i (full_list t)) as [_|Hnin]; [reflexivity|].
+      destruct (Nat.lt_ge_cases i (nb T t)) as [Hlt|Hge].
+      + specialize (Hsl i Hlt). unfold slot in Hsl.
+        destruct (nth i (slots t) None) as [e|] eqn:Ee; [|reflexivity].
+        exfalso. apply Hnin. unfold full_list. apply filter_In. split; [apply in_seq; lia|].
+        apply Hsl. discriminate.
+      + apply nth_overflow. destruct HS as (_ & _ & Hls & _). lia.
+    - intros [Hc|Hc]; congruence.
+  Qed.
+
+  (* -------------------------------------------------------------------------------------- *)
+  (* A6: clear, drop_inner_table                                                             *)
+  (* -------------------------------------------------------------------------------------- *)
+  Theorem clear_safe t : SafeWF B T t ->
+    exists t' evs ok, clear B T needs_drop drop_ok t = Ok (t', evs, ok) /\
+      SafeWF B T t' /\ mask t' = mask t /\ occupants T t' = [] /\ items t' = 0%Z /\
+      drops_prefix evs (occupants T t) /\
+      (needs_drop = true -> ok = true -> evs = map EvDrop (occupants T t)) /\
+      (needs_drop = false -> evs = [] /\ ok = true) /\
+      (ok = false -> exists l e, evs = map EvDrop (l ++ [e]) /\ drop_ok e = false) /\
+      (items t = 0%Z -> t' = t /\ evs = [] /\ ok = true) /\
+      (items t <> 0%Z -> growth_left t' = z_cap (mask t) /\ forall i, i < nb T t' -> byte T t' i = EMPTY) /\
+      (Allocated t -> Allocated t').
+  Proof.
+    intros H. unfold clear.
+    destruct (Z.eqb_spec (items t) 0) as [Hi0|Hi].
+    - exists t, [], true. split; [reflexivity|]. split; [exact H|]. split; [reflexivity|].
+      pose proof (occupants_items0 t H Hi0) as Ho.
+      split; [exact Ho|]. split; [exact Hi0|]. split; [apply drops_prefix_nil|].
+      split; [intros _ _; rewrite Ho; reflexivity|]. split; [intros _; split; reflexivity|].
+      split; [discriminate|]. split; [intros _; repeat split|]. split; [contradiction | exact (fun x => x)].
+    - destruct (drop_elements_spec t H) as
+        (t1 & evs & ok & E & Hm1 & Hc1 & _ & _ & Hl1 & Hpre & Hall & Hfail & _ & Htriv).
+      rewrite E. cbn [bind].
+      pose proof (safe_items_nz_mask t H Hi) as Hm.
+      destruct (safe_allocated_parts t H Hm) as (HS & _).
+      assert (HG : Geometry t1).
+      { destruct (Shape_Geometry t HS) as (G1 & G2 & G3).
+        unfold Geometry, nb, buckets in *. rewrite Hm1, Hc1, Hl1. split; [exact G1 | split; assumption]. }
+      destruct (clear_no_drop_geometry t1 HG) as (S1 & S2 & S3 & S4 & S5 & S6).
+      exists (clear_no_drop T t1), evs, ok. split; [reflexivity|].
+      split; [exact S1|]. split; [rewrite S2; exact Hm1|]. split; [exact S4|]. split; [exact S3|].
+      split; [exact Hpre|]. split; [exact Hall|].
+      split; [intros Hnd; destruct (Htriv (or_introl Hnd)) as (_ & ? & ?); split; assumption|].
+      split; [intros Ho; destruct (Hfail Ho) as (_ & _ & Hx); exact Hx|].
+      split; [contradiction|].
+      split; [intros _; split; [rewrite S5, Hm1; reflexivity | exact S6]|].
+      intros HA. apply (Allocated_same_mask t); [rewrite S2; exact Hm1 | exact HA].
+  Qed.
+
+  Theorem drop_inner_table_spec t : SafeWF B T t -> (mask t = 0 \/ Allocated t) ->
+    exists evs ok, drop_inner_table B T tsize talign needs_drop drop_ok t = Ok (evs, ok) /\
+      (mask t = 0 -> evs = [] /\ ok = true) /\
+      (mask t <> 0 ->
+         exists len al off dr,
+           layout_for B tsize talign (nb T t) = Some (len, al, off) /\ ValidLayout len al /\
+           drops_prefix dr (occupants T t) /\
+           (needs_drop = true -> ok = true -> dr = map EvDrop (occupants T t)) /\
+           (needs_drop = false \/ items t = 0%Z -> dr = [] /\ ok = true) /\
+           (ok = false -> exists l e, dr = map EvDrop (l ++ [e]) /\ drop_ok e = false) /\
+           evs = if ok then dr ++ [EvFree len al] else dr).
+  Proof.
+    intros H HA. unfold drop_inner_table, is_singleton.
+    destruct (Nat.eqb_spec (mask t) 0) as [Hm0|Hm].
+    - exists [], true. split; [reflexivity|]. split; [intros _; split; reflexivity | contradiction].
+    - destruct HA as [|(_ & len & al & off & El)]; [contradiction|].
+      destruct (safe_allocated_parts t H Hm) as (HS & _).
+      destruct (drop_elements_spec t H) as
+        (t1 & dr & ok & E & Hm1 & _ & _ & _ & _ & Hpre & Hall & Hfail & _ & Htriv).
+      rewrite E. cbn [bind].
+      assert (El1 : layout_for B tsize talign (nb T t1) = Some (len, al, off)).
+      { unfold nb, buckets in *. rewrite Hm1. exact El. }
+      assert (Hm1' : mask t1 <> 0) by (rewrite Hm1; exact Hm).
+      destruct (free_buckets_ok t1 len al off Hm1' El1) as [Hfree _].
+      assert (Hres : exists evs,
+        (if ok then fr <- free_buckets B T tsize talign t1;; Ok (dr ++ fr, true) else Ok (dr, false))
+        = Ok (evs, ok) /\ evs = if ok then dr ++ [EvFree len al] else dr).
+      { destruct ok; [rewrite Hfree; cbn [bind]|]; eexists; split; reflexivity. }
+      destruct Hres as (evs & Hres & Hevs). exists evs, ok. split; [exact Hres|].
+      split; [contradiction|]. intros _. exists len, al, off, dr.
+      split; [exact El|]. split; [exact (allocated_layout_valid t len al off HS El)|].
+      split; [exact Hpre|]. split; [exact Hall|].
+      split; [intros Hc; destruct (Htriv Hc) as (_ & ? & ?); split; assumption|].
+      split; [intros Ho; destruct (Hfail Ho) as (_ & _ & Hx); exact Hx | exact Hevs].
+  Qed.
+
+  (* alloc / free pairing: a table obtained from fallible_with_capacity and then dropped emits
+     exactly one EvFree, with the layout of its EvAlloc (or nothing at all for capacity 0) *)
+  Corollary alloc_then_drop cap f t' evs : (0 <= cap < 2 ^ 64)%Z ->
+    fallible_with_capacity B T tsize talign cap false f = Ok (Some t', evs, TR_ok) ->
+    (cap = 0%Z /\ evs = [] /\
+     drop_inner_table B T tsize talign needs_drop drop_ok t' = Ok ([], true)) \/
+    (exists len al, ValidLayout len al /\ evs = [EvAlloc len al] /\
+     drop_inner_table B T tsize talign needs_drop drop_ok t' = Ok ([EvFree len al], true)).
+  Proof.
+    intros Hcap E. pose proof (fallible_with_capacity_spec cap false f Hcap) as H.
+    rewrite E in H. cbn [fwc_post] in H.
+    destruct H as (Hs & Hi & Ho & _ & _ & _ & [(-> & -> & ->) | (Hnz & _ & HA & _ & len & al & off & El & -> & Hv)]).
+    - left. split; [reflexivity|]. split; reflexivity.
+    - right. exists len, al. split; [exact Hv|]. split; [reflexivity|].
+      destruct (drop_inner_table_spec t' Hs (or_intror HA)) as (evs & ok & Ed & _ & Hd).
+      destruct HA as (Hm & _).
+      destruct (Hd Hm) as (len' & al' & off' & dr & El' & _ & _ & _ & Htriv & _ & Hevs).
+      rewrite El in El'. injection El' as <- <- <-.
+      destruct (Htriv (or_intror Hi)) as (-> & ->). cbn [app] in Hevs. subst evs. exact Ed.
+  Qed.
 End SafeAllocClear.
 
 Print Assumptions new_table_safe.
+Print Assumptions new_table_capacity.
+Print Assumptions new_table_allocation_size.
+Print Assumptions capacity_eq.
 Print Assumptions capacity_ge_len.
 Print Assumptions clear_no_drop_safe.
 Print Assumptions fallible_with_capacity_spec.
 Print Assumptions fallible_with_capacity_ok.
 Print Assumptions free_buckets_ok.
 Print Assumptions allocated_layout_valid.
+Print Assumptions layout_for_valid.
+Print Assumptions clear_no_drop_allocated.
+Print Assumptions drop_elements_spec.
+Print Assumptions clear_safe.
+Print Assumptions drop_inner_table_spec.
+Print Assumptions alloc_then_drop.
